@@ -698,7 +698,8 @@ PROPS = {
             "(records contiguous, in result order, texts derived from the library API with the same bindings -s/-v/-e; -m records re-parsed with ReadXml and compared with the node's subtree) and stderr for owed diagnostics; "
             "four query variants exercise -s and -v bindings, text/comment/PI/attribute results", "exhaustive": {"quick": True, "thorough": True},
             "assumptions": BASE_ASSUME + ["outcomes the specification does not determine (e.g. JSON text forced to be read as XML) are skipped", "values contain no newline characters",
-                                          "stand-alone -m serialisation of attribute and namespace nodes is not constrained"]},
+                                          "stand-alone -m serialisation of attribute and namespace nodes is not constrained",
+                                          "-m records of subtrees holding names that are not XML names (#obj / #arr of the JSON mapping) cannot parse back; only their shape (one line, an element) is checked"]},
     "C08": {"run": c08, "replay": adapter_replay,
             "rule": "TLC enumerates EVERY string of at most MaxLen (quick 3, thorough 4) lexemes over four alphabets - core (names a div or child text, number, literal, $v, ( ) [ ] / // | - * = , :: @ . ..), "
             "ops (all binary operators, operator names, parentheses), paths (names with - . #, node types, axis names as names, QName, p:*, *:a, ( ) / // :: @ * [ ]), lex (_x, '1.', fractions, prefixed variable/function, non-ASCII literal/name) - "
